@@ -7,6 +7,8 @@ spec fn be16_val(hi: u8, lo: u8) -> u16 { (hi as u16 * 256 + lo as u16) as u16 }
 trait BufMut: Sized {
     spec fn written(&self) -> Seq<u8>;
     spec fn rem(&self) -> usize;
+    // ghost: the capacity the underlying storage had when the buffer was set up (only meaningful for Limit)
+    spec fn cap(&self) -> usize;
 
     fn remaining_mut(&self) -> (r: usize)
         ensures r == self.rem();
@@ -17,28 +19,34 @@ trait BufMut: Sized {
     fn put_slice(&mut self, src: &[u8])
         requires src@.len() <= (*old(self)).rem(),
         ensures (*final(self)).written() == (*old(self)).written() + src@,
-                (*final(self)).rem() == (*old(self)).rem() - src@.len();
+                (*final(self)).rem() == (*old(self)).rem() - src@.len(),
+                (*final(self)).cap() == (*old(self)).cap();
 
     fn put_u16(&mut self, n: u16)
         requires 2 <= (*old(self)).rem(),
         ensures (*final(self)).written() == (*old(self)).written() + be16(n),
-                (*final(self)).rem() == (*old(self)).rem() - 2;
+                (*final(self)).rem() == (*old(self)).rem() - 2,
+                (*final(self)).cap() == (*old(self)).cap();
 
     fn put_u8(&mut self, n: u8)
         requires 1 <= (*old(self)).rem(),
         ensures (*final(self)).written() == (*old(self)).written().push(n),
-                (*final(self)).rem() == (*old(self)).rem() - 1;
+                (*final(self)).rem() == (*old(self)).rem() - 1,
+                (*final(self)).cap() == (*old(self)).cap();
 }
 
 // bytes::buf::Limit<Vec<u8>> as produced by `Vec<u8>::limit(n)` (BufMut::limit)
 struct Limit {
     inner: Vec<u8>,
     limit: usize,
+    // capacity of `inner` when `limit()` was called; stays the real capacity as long as len + limit never exceeded it
+    cap0: Ghost<usize>,
 }
 
 impl BufMut for Limit {
     spec fn written(&self) -> Seq<u8> { self.inner@ }
     spec fn rem(&self) -> usize { self.limit }
+    spec fn cap(&self) -> usize { self.cap0@ }
     #[verifier::external_body]
     fn remaining_mut(&self) -> (r: usize) { unimplemented!() }
     #[verifier::external_body]
@@ -55,6 +63,7 @@ impl BufMut for Limit {
 impl BufMut for Vec<u8> {
     spec fn written(&self) -> Seq<u8> { self@ }
     spec fn rem(&self) -> usize { (isize::MAX as usize - self@.len()) as usize }
+    spec fn cap(&self) -> usize { 0 }
     #[verifier::external_body]
     fn remaining_mut(&self) -> (r: usize) { unimplemented!() }
     #[verifier::external_body]
@@ -68,19 +77,17 @@ impl BufMut for Vec<u8> {
 }
 
 impl Limit {
-    #[verifier::external_body]
-    fn get_ref(&self) -> (r: &Vec<u8>)
-        ensures *r == self.inner
-    { unimplemented!() }
+    // no write ever went past the capacity the vector had at the start => it never reallocated
+    spec fn within_cap(&self) -> bool { self.inner@.len() + self.limit <= self.cap0@ }
 
     #[verifier::external_body]
-    fn get_mut(&mut self) -> (r: &mut Vec<u8>)
-        ensures *r == old(self).inner, final(self).inner == *final(r), final(self).limit == old(self).limit
+    fn get_ref(&self) -> (r: &Vec<u8>)
+        ensures *r == self.inner, self.within_cap() ==> vec_cap(r) == self.cap0@
     { unimplemented!() }
 
     #[verifier::external_body]
     fn into_inner(self) -> (r: Vec<u8>)
-        ensures r == self.inner
+        ensures r == self.inner, self.within_cap() ==> vec_cap(&r) == self.cap0@
     { unimplemented!() }
 }
 
@@ -91,7 +98,7 @@ impl VecLimit for Vec<u8> {
     // `limit` caps the number of *additional* bytes; Vec<u8>::remaining_mut is isize::MAX - len, far above any limit used
     #[verifier::external_body]
     fn limit(self, limit: usize) -> (r: Limit)
-        ensures r.inner == self, r.limit == limit
+        ensures r.inner == self, r.limit == limit, r.cap0@ == vec_cap(&self)
     { unimplemented!() }
 }
 
@@ -133,7 +140,33 @@ impl Buf for &[u8] {
 fn h2_put_u16_at(buf: &mut Limit, pos: usize, n: u16)
     requires pos + 2 <= old(buf).inner@.len(),
     ensures final(buf).inner@ == old(buf).inner@.update(pos as int, be16(n)[0]).update(pos as int + 1, be16(n)[1]),
-            final(buf).limit == old(buf).limit,
+            final(buf).limit == old(buf).limit, final(buf).cap0 == old(buf).cap0,
+{
+    unimplemented!()
+}
+
+// H3 (rule N8): `buf.get_mut().truncate(pos)`: drops what a failed encode_member left behind; the limit is NOT given back
+// (bytes::Limit only ever decrements it) and the capacity is untouched.
+#[verifier::external_body]
+fn h3_truncate(buf: &mut Limit, pos: usize)
+    requires pos <= old(buf).inner@.len(),
+    ensures final(buf).inner@ == old(buf).inner@.take(pos as int), final(buf).limit == old(buf).limit, final(buf).cap0 == old(buf).cap0,
+{
+    unimplemented!()
+}
+
+// H8/H9 (rule N8): Vec::with_capacity(n) / Vec::clear() with their capacity behaviour (vstd specifies only the contents).
+// `with_capacity(n).capacity() == n` holds for u8 vectors in the std implementation; foca's own debug assertion relies on it.
+#[verifier::external_body]
+fn h8_with_capacity(n: usize) -> (r: Vec<u8>)
+    ensures r@.len() == 0, vec_cap(&r) == n,
+{
+    unimplemented!()
+}
+
+#[verifier::external_body]
+fn h9_clear(v: &mut Vec<u8>)
+    ensures final(v)@.len() == 0, vec_cap(final(v)) == vec_cap(old(v)),
 {
     unimplemented!()
 }
